@@ -71,6 +71,10 @@ impl Shard {
 				self.report.evaluations += out.executions;
 				self.report.sub_nontrivial += out.nontrivial;
 				self.report.excluded_known += EXCLUDED_KNOWN.swap(0, std::sync::atomic::Ordering::SeqCst);
+				let over = LOGQ_OVER_LIMIT.swap(0, std::sync::atomic::Ordering::SeqCst);
+				if over > 0 {
+					*self.report.counters.entry("executions_with_log_queue_over_128MiB".to_string()).or_insert(0) += over;
+				}
 				case_nontrivial += out.nontrivial;
 				if let Some((sig, _, _)) = &out.failure {
 					if sig == "step-limit" {
@@ -137,7 +141,13 @@ fn run_shard(sh: &mut Shard) {
 			// bursts beyond the 16 MiB queue limit: few schedules each (17+ MiB of I/O per execution)
 			let n = scaled(sh, 14, 280);
 			let (r, p) = if sh.tier == "thorough" { (40, 20) } else { (12, 4) };
-			sh.run_workloads("burst", n, c15::workload(true), r, p, |wl, base| c15::execute(wl, base));
+			if !sh.run_workloads("burst", n, c15::workload(true), r, p, |wl, base| c15::execute(wl, base)) {
+				return
+			}
+			// beyond the 128 MiB log-queue limit (100-200 MiB of I/O per execution)
+			let n = scaled(sh, 7, 140);
+			let (r, p) = if sh.tier == "thorough" { (12, 6) } else { (4, 2) };
+			sh.run_workloads("giant", n, c15::workload_giant(), r, p, |wl, base| c15::execute(wl, base));
 		},
 		"C16" => {
 			let n = scaled(sh, 140, 2_800);
